@@ -66,6 +66,7 @@ class TopTranslator(NumTranslator):
       T7  for a, b in zip(X, L): <body that mutates b in place>  (L a local list, items not aliased elsewhere)
                                          -> $new = []; for a, b in zip(X, L): <body>; $new.append(b)
                                             then  L = $new + L[len($new):]
+      T8  a = b = c = e                  -> a = e; b = a; c = a
       T6  C(args, k=v) for a class C declared primitive keeps its keywords in the primitive's name (py2mini does that);
           F1 (f-strings) as in RenderTranslator."""
 
@@ -109,6 +110,10 @@ class TopTranslator(NumTranslator):
         return super().expr(e)
 
     def stmt(self, s):
+        if isinstance(s, ast.Assign) and len(s.targets) > 1 and all(isinstance(t, ast.Name) for t in s.targets):   # T8
+            first = py2mini.gstr(s.targets[0].id)
+            return '; '.join([f'(SAssign (TName {first}) {self.expr(s.value)})'] +
+                             [f'(SAssign (TName {py2mini.gstr(t.id)}) (XName {first}))' for t in s.targets[1:]])
         if isinstance(s, ast.Expr) and isinstance(s.value, ast.YieldFrom):                                # T3
             self.locals.add('$y')
             return f'(SFor "$y" {self.expr(s.value.value)} [(SYield (XName "$y"))])'
@@ -187,6 +192,7 @@ def spec_render():
                 'beanquery.query_render.DecimalRenderer.prepare without its last statement `return super().prepare()`', True))
     out.append(('render_rows_fn', qr.render_rows, 'beanquery.query_render.render_rows', 'top'))
     out.append(('render_csv_fn', qr.render_csv, 'beanquery.query_render.render_csv (without its unused **kwargs)', 'top'))
+    out.append(('render_text_fn', qr.render_text, 'beanquery.query_render.render_text (without its unused **kwargs)', 'top'))
     return out
 
 
